@@ -206,3 +206,37 @@ func governingConsts(info *types.Info, body ast.Node, st ast.Node) []string {
 	}
 	return nil
 }
+
+// mentionsFieldR: does expression e mention struct field fld, directly or through locals with a single definition
+// (`max := l.pool.MaxBufferSize; if n >= max`)?
+func mentionsFieldR(info *types.Info, body ast.Node, e ast.Node, fld *types.Var) bool {
+	if e == nil || fld == nil {
+		return false
+	}
+	found := false
+	var visit func(n ast.Node, depth int)
+	visit = func(n ast.Node, depth int) {
+		if found || depth > 5 {
+			return
+		}
+		core.Walk(n, true, func(x ast.Node) bool {
+			if found {
+				return false
+			}
+			switch t := x.(type) {
+			case *ast.SelectorExpr:
+				if core.SelField(info, t) == fld {
+					found = true
+					return false
+				}
+			case *ast.Ident:
+				if d := resolveLocal(info, body, t); d != ast.Expr(t) {
+					visit(d, depth+1)
+				}
+			}
+			return true
+		})
+	}
+	visit(e, 0)
+	return found
+}
